@@ -7,4 +7,28 @@ TEXT = {
   "note": "trusted: Coq kernel, extraction (ExtrOcamlBasic), harness; time.Ticker and goroutine scheduling are not modelled (readings served are the model's input); timestamps within int64 ns",
   "technique": "Coq proof (arithmetic lemmas + invariant of a small LTS) + differential correspondence with the real Engine",
  },
+ "C11": {
+  "level": "Theorems over the model of transactions_pool.go for all pools, chains, settings and shuffles: admission succeeds exactly when the transaction is dated in [last block, next block], is not pooled, has valid signatures and passes fee and application against confirmed outputs + last block + earlier pooled transactions, and then only appends it; a produced block is exactly the greedy sub-list of the shuffled pool plus one reward to the producer whose value is the add64-fold of the kept fees (never above the exact fees, equal below 2^64); refusals leave the node unchanged. Tied to the code by histories on the real pool with the shuffle recomputed from the same seed.",
+  "ref": "DESIGN.md section 4, C11",
+  "note": "trusted: Coq kernel, extraction, harness; oracles for ECDSA, address derivation, Utxo.Value; minimal fee >= 1; aligned ticks",
+  "technique": "Coq proof (inversion and refinement of the production loop to a greedy specification) + differential correspondence on operation histories",
+ },
+ "C06": {
+  "level": "Theorems over the model of Blockchain.Update for all host states, neighbor answers and tie-breaks: a replaced chain is a surviving candidate that came from a neighbor whose answer passed verify, is never shorter than the host's, is as long as the longest candidate, passes the half-of-the-candidates branch test, has maximal validator age among the survivors, and differs from the host's tip; in every other case the whole state is returned unchanged (the failing-commit branch is proved unreachable for verified candidates). Tied to the code by sync rounds of a real node against up to eight scripted neighbors.",
+  "ref": "DESIGN.md section 4, C06",
+  "note": "trusted: Coq kernel, extraction, harness; Go map iteration order is an input of the model; no neighbor is literally called \"host\"",
+  "technique": "Coq proof (list lemmas on filters and a strict arg-max fold, case analysis of update) + differential correspondence on sync rounds",
+ },
+ "C08": {
+  "level": "Paging is compared for every height against the model's blocks_page (whose uint64 wrap is written out); convergence is measured on real nodes against the bound of the property, and every sync round of the catching-up node is compared with the model, whose fork choice and replay theorems (C06, C07) are what make the adopted chain and state the served ones. The general convergence theorem (a measure argument over rounds) is not proved yet: partial.",
+  "ref": "DESIGN.md section 4, C08",
+  "note": "partial: C08_paging-style theorems are in progress; convergence bound is validated on histories, not yet proved; trusted: Coq kernel, extraction, harness",
+  "technique": "Coq model of paging and sync + differential correspondence and round counting on real nodes (convergence theorem pending)",
+ },
+ "C09": {
+  "level": "41 theorems over the real-number model of Utxo.Value for all amounts, times and settings: decay never exceeds the initial value, is antitone and halves per half-life; income stays between the initial value and the limit, is monotone in time and in the amount, reaches the base from zero after one half-life; valuing twice never gains (even without the +1), with the code's floor placements; the value depends on elapsed time only. The binary64 step is validated pointwise: each sampled point is enclosed by the interval tactic and Go's result must lie within the property's slack.",
+  "ref": "DESIGN.md section 4, C09",
+  "note": "axioms: the standard real-number axioms + classic + functional_extensionality_dep (Reals/Coquelicot/Interval); Go's libm is not formalised (pointwise validation only)",
+  "technique": "Coq proof over Reals (lra/nra/field, exp/ln lemmas) + interval-arithmetic enclosures compared with the implementation",
+ },
 }
